@@ -211,6 +211,9 @@ class PathRun:
             return "arena-outside-root", rp
         from ..env import SHM
 
+        home = os.environ.get("HOME", "")
+        if home and (rp == home or rp.startswith(home.rstrip("/") + "/")):
+            return "system", rp  # the harness' own (empty) HOME: git configuration look-ups
         # everything else on the scratch file system (levels above the arena) is outside the root too
         if rp == SHM or rp.startswith(SHM.rstrip("/") + "/"):
             return "arena-outside-root", rp
